@@ -90,6 +90,9 @@ func fnExprJS(e *sx) string {
 		return "(" + fnExprJS(a[0]) + "." + a[1].name + " += " + fnExprJS(a[2]) + ")"
 	case "inc":
 		return "(" + fnExprJS(a[0]) + "." + a[1].name + "++)"
+	case "fnc":
+		f := a[0].args
+		return "Function(" + strconv.Quote(fnBodyJS(f[2], f[3], f[4])) + ")"
 	case "pro":
 		return "Object.getPrototypeOf(" + fnExprJS(a[0]) + ")"
 	case "rgx":
